@@ -39,6 +39,7 @@ static long W_calls[VP_MAXCO + 1];                         /* wrapped calls made
 static long W_kill_at[VP_MAXCO + 1];                       /* kill the coroutine before its K-th wrapped call (0 = never) */
 /* death at an arbitrary moment of the OTHER side's execution (SIGKILL while the victim is wherever it is, also blocked):
    the victim dies just before the J-th wrapped call the observer makes after the order was armed */
+static int W_poke_server;     /* the server application has something to do on its own (a timer of its own fired): its loop wakes up once */
 static int W_hit_victim = -1, W_hit_observer = -1, W_hit_done;
 static long W_hit_at, W_hit_base;
 static void (*W_server_turn)(void);                        /* harness: runs at every server loop iteration boundary */
@@ -69,7 +70,7 @@ int __real_kill(pid_t p, int s);
 static void w_reset(void)
 {
 	W_now = W_BASE; W_epoch = 0;
-	memset(WT, 0, sizeof WT); memset(W_dead, 0, sizeof W_dead); memset(W_calls, 0, sizeof W_calls); memset(W_kill_at, 0, sizeof W_kill_at); W_hit_victim = W_hit_observer = -1; W_hit_done = 0; W_hit_at = 0; memset(W_cred, 0, sizeof W_cred); W_fs_hook = NULL;
+	memset(WT, 0, sizeof WT); memset(W_dead, 0, sizeof W_dead); memset(W_calls, 0, sizeof W_calls); memset(W_kill_at, 0, sizeof W_kill_at); W_hit_victim = W_hit_observer = -1; W_hit_done = 0; W_hit_at = 0; W_poke_server = 0; memset(W_cred, 0, sizeof W_cred); W_fs_hook = NULL;
 	W_server_co = -1; W_dead_server_pid = 0; W_stop_server = 0; W_free_choices = 0; W_small_bufs = 0;
 }
 
@@ -81,7 +82,7 @@ static int w_ready(void *p)
 	if (w->deadline != W_NEVER && W_now >= w->deadline) return 1;
 	switch (w->kind) {
 	case WK_POLL: return __real_poll(w->pfd, (nfds_t)w->npfd, 0) != 0;
-	case WK_EPOLL: return W_stop_server || __real_epoll_wait(w->epfd, &ev, 1, 0) != 0;
+	case WK_EPOLL: return W_stop_server || W_poke_server || __real_epoll_wait(w->epfd, &ev, 1, 0) != 0;
 	case WK_SEM: __real_sem_getvalue(w->sem, &v); return v > 0;
 	case WK_CHANGE: return W_epoch != w->epoch;
 	default: return 0;
@@ -249,6 +250,7 @@ int __wrap_epoll_wait(int epfd, struct epoll_event *ev, int maxev, int timeout)
 	if (r != 0 || timeout == 0) { W_now += 1000; return r; }
 	w.epfd = epfd; w.deadline = ms_deadline(timeout);
 	w_wait(&w, "epoll_wait");
+	W_poke_server = 0;
 	if (W_stop_server && vp_co_self() == W_server_co) { qb_loop_stop(SL); return 0; }
 	r = __real_epoll_wait(epfd, ev, maxev, 0);
 	W_now += 1000;
